@@ -130,6 +130,7 @@ inline constexpr bool arith = std::is_arithmetic_v<T>;
     struct lim_##MEMBER##_type {                                                                                       \
         static constexpr char const* name = "numeric_limits";                                                          \
         static constexpr char const* form = "decltype(@<T>::" #MEMBER "())";                                           \
+        static constexpr bool constant_expected = true;                                                                \
         template <typename T>                                                                                          \
         static constexpr bool ok = arith<T>;                                                                           \
         template <typename T>                                                                                          \
@@ -362,6 +363,7 @@ struct ratio_norm {
 struct ratio_type {
     static constexpr char const* name = "ratio";
     static constexpr char const* form = "@<N,D>::type";
+    static constexpr bool constant_expected = true;
     template <typename R>
     static constexpr bool ok = true;
     template <typename R>
@@ -435,6 +437,7 @@ struct ratio_type {
     struct OP##_Ty {                                                                                                   \
         static constexpr char const* name = #OP;                                                                       \
         static constexpr char const* form = "@<R1,R2> is ratio<num,den>";                                              \
+        static constexpr bool constant_expected = true;                                                                \
         template <typename A, typename B>                                                                              \
         static constexpr bool ok = naive_fits<A, B>() && (EXTRA_OK);                                                   \
         template <typename A, typename B>                                                                              \
